@@ -26,6 +26,15 @@ CHECKS = {
  "C15": dict(cat="exploration", technique="no-panic monitor over grammar-aware generated inputs in child processes (input logged before each call, recover + crash attribution) + exact bandwidth grammar oracle (big.Rat) with monotonicity",
      text="Every user-writable field named by the property is driven with raw bytes, structured mutations of valid values and boundary numerics into the real entry points (daemon k8s layer, annotation parsers, NUMA-hint path through getENIIndex, both webhook handlers, config merge/validate/pool config, stored-record consumers incl. Local.load/GetIPInfo/ReleaseIP, helper converters, plugin getCmdArgs/parse*Conf in-package). A recovered panic or a crashed child is a violation; well-formed bandwidth values must be accepted with/without unit, equal floor(v*2^k) up to float64 rounding and be monotonic in the unit.",
      note="Generators are grammar-aware, not coverage-guided; only anchored entry points are driven; 8 child processes per run.", ref="§2 C15"),
+ "C01": dict(cat="exploration", technique="interval ledger + provenance guard (runtime monitor at the client and cloud boundaries) over concurrent pool histories with cancellation, balancer, sync, drift and cloud faults; Go race detector",
+     text="Each history runs the real eni.Manager/Local/Trunk over a simulated cloud with 4..13 concurrent clients; every acknowledged ADD opens a hold interval per address, every DEL closes it before the call; overlaps, repeated-ADD differences, hand-outs of addresses the daemon had already unassigned / seen removed by a completed sync / on an ENI whose deletion was invoked are violations, judged against what was known before the request was invoked. Pool ownership is compared with the ledger at quiescence. 600 (quick) / 8000 (thorough) histories; evidence lists window hit counters and distinct interleaving signatures.",
+     note="Cloud simulated at the factory.Factory boundary; per-pod request serialisation and rollback-on-error follow daemon.AllocIP; schedules are sampled, a window counts as explored only if its counter is non-zero.", ref="§2 C01"),
+ "C06": dict(cat="exploration", technique="call-time guard on every factory call (open holds, per-ENI counts + in-flight assigns, interface quota + in-flight creates, live queued requests via hook) + late-ack rule; cloud-side quota detector; race detector",
+     text="Same pool harness, half of the histories edge-biased (cap 1..3, batch > cap, no idle reserve, balancer running back to back, creations failing after the interface exists). Every CreateNetworkInterface/Assign/UnAssign/Delete is judged when it is invoked: over-limit requests, unassign of a held or primary address, delete of an interface with a hold, with live pending requests (queue inspection hook), of the trunk/erdma interface, and ADDs later served from an interface whose deletion was already invoked.",
+     note="Per-ENI limit and quota are the PoolConfig values; pending-request inspection uses a verif-tagged read-only hook in pkg/eni.", ref="§2 C06"),
+ "C07": dict(cat="fault_enumeration", technique="fault enumeration (every single-fault placement x 7 kinds over 4 scripts) + random multi-fault histories, then bounded fault-free tail and quiescent agreement oracle (pool Status vs cloud state vs ledger vs idle band)",
+     text="All first-order fault placements (mutating cloud call 1..12 x err-before/err-after/partial/quota-eni/vsw-exhaust/quota-ip/half-created) of four fixed request scripts are enumerated, plus random histories with 1..6 faults and cancellations. Faults then stop and the pool is driven (clear inhibit, balancer, sync) for at most 100 counted rounds; at the fixed point interfaces and addresses tracked by the pool must equal the cloud's, no address may be owned by a pod that holds none, nothing may stay 'Deleting', and the idle count must lie in the min/max band (tolerating undisposable primaries and per-family room).",
+     note="'Eventually' is decided as bounded progress (100 rounds). No cloud drift in C07 histories. IPv6-only band is not judged (the daemon's config validation rejects that stack).", ref="§2 C07"),
 }
 NOT_YET = {}
 
